@@ -17,6 +17,10 @@ CLAIMED = {
          "Exploration by generated search over all node kinds the grammar produces (label histogram of node kinds in the evidence); every statement/expression node must be visited exactly once, containers at most once, no panic, termination. Does not prove completeness for grammar the generator does not reach.",
          "The reflective traversal follows exported fields (and embedded structs) of the AST; ListNode, BlockParameterList, the catch wrapper and the catch variable count as containers.",
          "DESIGN.md section 5/C20"),
+ "C04": ("property-based testing (rapid): generated typed expression trees printed with minimal/redundant parentheses and both/neither spacing, compared with an independent typed reference evaluator; probe-function call logs for laziness",
+         "Exploration by generated search over operator/kind/spacing combinations (label histogram: operator pairs and operand-kind pairs actually exercised); exact output equality with a reference evaluator written from the property statement.",
+         "Shapes whose meaning the statement leaves open are discarded and counted (see assumptions in the evidence); values are small so that float arithmetic is exact.",
+         "DESIGN.md section 5/C04"),
 }
 PENDING = {}
 
